@@ -73,6 +73,32 @@ Theorem write_loops_symmetric :
     (let '(n, _, _) := tcp_write fuel len 0 sched in n <= len).
 Proof. exact write_loops_symmetric_proof. Qed.
 
+(** 4b. the two rustls write loops of FrontRustls.  Full symmetry is REFUTED by
+    the source itself (kept visible):
+      forall fuel len t sched, tls_write fuel len t sched = tls_writev fuel len t sched
+    — the vectored loop offers the data to rustls once and returns a partial
+    count with status Continue when rustls takes only part of it
+    ([write_loops_symmetric_tls_refuted]; replayed on the real FrontRustls by the
+    driver's `tls` op).  What both loops do guarantee, for every rustls buffer
+    limit and every socket schedule: the count they report is at most what was
+    offered, and every reported byte is accounted for exactly once — still in
+    rustls' buffer or written to the socket (no loss, no duplication).  The
+    remainder of a partial vectored write stays in the caller's kawa and is
+    retried because the status is Continue (WRITABLE event kept). *)
+Theorem write_loops_tls_conserve :
+  forall fuel len t sched,
+    (let '(b, _, t', _) := tls_write fuel len t sched in
+     b <= len /\ t_pending t' + t_flushed t' = t_pending t + t_flushed t + b) /\
+    (let '(b, _, t', _) := tls_writev fuel len t sched in
+     b <= len /\ t_pending t' + t_flushed t' = t_pending t + t_flushed t + b).
+Proof. exact tls_loops_conserve_proof. Qed.
+
+Theorem write_loops_symmetric_tls_refuted :
+  exists fuel len t sched,
+    (let '(b, st, _, _) := tls_write fuel len t sched in (b, st)) <>
+    (let '(b, st, _, _) := tls_writev fuel len t sched in (b, st)).
+Proof. exact tls_loops_not_symmetric_proof. Qed.
+
 (** 5. wake_not_lost: in the readiness model, if every transition that queues
     output arms WRITABLE (interest + event), no schedule of loop turns and
     kernel edges reaches the stall (output queued, socket writable, writer
